@@ -195,12 +195,13 @@ fn d_ipfix_unknown_field_off() {
     let n: u16 = kani::any();
     kani::assume(n < 32768 && IPFixField::from(n) == IPFixField::Unknown);
     let l: u16 = kani::any();
-    kani::assume(l >= 1 && l <= 3);
+    kani::assume((l >= 1 && l <= 3) || l == 65535); // fixed or variable-length encoding
     let mut p = IPFixParser::default();
     p.templates.insert(256, Template { template_id: 256, field_count: 1, fields: vec![tf(n, IPFixField::from(n), l)], padding: vec![] });
     let buf: [u8; 6] = kani::any();
     let r = Data::parse(&buf, &mut p, 256);
     assert!(r.is_err());
+    kani::cover!(l == 65535 && buf[0] == 2);
     core::mem::forget(r);
     core::mem::forget(p);
 }
